@@ -55,7 +55,7 @@ def clock_vectors(c):
         else:
             c.report("clock:%s:%s" % (d["impl"], d["why"][:40]), "%s: %s on %s" % (d["impl"], d["why"], json.dumps(d["vec"])),
                      {"clock_vector": d["vec"], "impl": d["impl"]})
-    if not stats or stats.get("executed", 0) < 2 * len(vecs):
+    if not stats or stats.get("executed", 0) < len(vecs):
         raise Broken("clock harness executed too little: %s" % stats)
     c.cov["clock_vectors"] = len(vecs)
     c.cov["vectors_executed"] += stats["executed"]
